@@ -195,8 +195,9 @@ def run_case(case, R):
 
 def _conditional(F, c, rng, R, label, wit, suffix=""):
     for eps in [float(_mag(rng) * s) for s in (1, -1, 1, -1)] + [1.0, -1.0, 1e-6, -1e6]:
-        xs = np.concatenate([-np.logspace(8, -8, 200), np.logspace(-8, 8, 200)])
-        vals = np.array([float(F.conditional_distribution(eps, np.array([x]))[0]) for x in xs])
+        xs = np.concatenate([-np.logspace(8, -8, 200), [-1e-300, -0.0, 0.0, 1e-300], np.logspace(-8, 8, 200)])      # (the origin included)
+        with np.errstate(all="ignore"):
+            vals = np.array([float(F.conditional_distribution(eps, np.array([x]))[0]) for x in xs])
         R.hit("conditional_monotone_checks")
         if np.any(np.diff(vals) < -1e-13) or vals[0] < -1e-13 or vals[-1] > 1 + 1e-13 or np.any(~np.isfinite(vals)):
             i = int(np.argmin(np.diff(vals)))
